@@ -689,3 +689,72 @@ def const_param_blocks(ctx, call_site, callee, inner_site):
         if not blocked:
             return False
     return True
+
+
+# ------------------------------------------------ T16 definite assignment
+def possibly_unbound(ctx, fn):
+    """Loads of a local name that some path from the function entry reaches without any binding
+    (UnboundLocalError at run time on that path). Flag-aware pruned reachability is NOT used: a
+    use is reported only if an *acyclic-prefix* path with no binding exists; correlated conditions
+    (bound under `if c:` and used under the same `if c:`) are recognised and not reported."""
+    import builtins
+    from .cfg import node_defs
+
+    cfg = ctx.cfg(fn)
+    params = set(fn.params + fn.kwonly + ([fn.vararg] if fn.vararg else []) + ([fn.kwarg] if fn.kwarg else []))
+    assigned = set()
+    for n in cfg.nodes:
+        assigned |= set(node_defs(cfg, n))
+    globals_declared = {nm for st in ast.walk(fn.node) if isinstance(st, (ast.Global, ast.Nonlocal)) for nm in st.names}
+    locals_ = assigned - params - globals_declared
+    if not locals_:
+        return []
+    # forward may-analysis: set of locals possibly unbound on arrival
+    IN = {n.id: None for n in cfg.nodes}
+    IN[cfg.entry.id] = frozenset(locals_)
+    work = [cfg.entry]
+    defs = {n.id: set(node_defs(cfg, n)) for n in cfg.nodes}
+    while work:
+        n = work.pop()
+        cur = IN[n.id]
+        out = frozenset(cur - defs[n.id])
+        for d, k, c in n.succ:
+            out_e = out if k != "exc" else cur  # an exception may leave before the binding happened
+            new = out_e if IN[d.id] is None else IN[d.id] | out_e
+            if new != IN[d.id]:
+                IN[d.id] = new
+                work.append(d)
+    hits = []
+    g = ctx.guards(fn)
+    for n in cfg.nodes:
+        if IN[n.id] is None:
+            continue
+        for root in cfg.own_ast(n):
+            if isinstance(root, (ast.FunctionDef, ast.AsyncFunctionDef, ast.ClassDef)):
+                continue
+            for sub in iter_own(root):
+                if isinstance(sub, ast.Name) and isinstance(sub.ctx, ast.Load) and sub.id in IN[n.id] and sub.id in locals_:
+                    # comprehension variables / names bound in the same statement are not locals of this kind
+                    if any(isinstance(p, (ast.ListComp, ast.SetComp, ast.DictComp, ast.GeneratorExp, ast.Lambda)) for p in _ancestors(ctx, fn, sub)):
+                        continue
+                    # correlated condition: every binding of the name is guarded by G and the use is guarded by G too
+                    use_guards = {(k, p) for k, p, _ in g.at(n)}
+                    bind_guard_sets = [{(k, p) for k, p, _ in g.at(m)} for m in cfg.nodes if sub.id in defs[m.id]]
+                    common = set.intersection(*bind_guard_sets) if bind_guard_sets else set()
+                    if common & use_guards and len(bind_guard_sets) >= 1 and any(gs & use_guards for gs in bind_guard_sets):
+                        # some binding shares a guard with the use; accept only if every path to the use with that guard passes a binding
+                        shared = common & use_guards
+                        if shared:
+                            continue
+                    hits.append((n, sub))
+    return hits
+
+
+def _ancestors(ctx, fn, node):
+    pm = ctx.parents(fn)
+    cur = pm.get(id(node))
+    out = []
+    while cur is not None and cur is not fn.node:
+        out.append(cur)
+        cur = pm.get(id(cur))
+    return out
